@@ -586,6 +586,95 @@ def typed_fields_and_delimiters_at_read_boundaries(W, rec, rng):
                     return
 
 
+def second_builders_and_exact_part_limits(W, rec, rng):
+    """(a) A request that carries query arguments *and* a form is turned into an environ and from there into a second
+    builder (re-sending a captured request, the client opening an environ): arguments and form are those of the first.
+    (b) A form with exactly as many parts as max_form_parts allows is a form within the limit - through the decoder, the
+    parser and the request object."""
+    M, FP, T, Request, DS = W
+    for args in ([("k\u00fc", "w\u00e9rt"), ("pct", "100%"), ("q", "what?"), ("a", "1"), ("a", "2")], [("plain", "x")], [("e", ""), ("", "v"), ("h", "#1")]):
+        form = [("f\u00e9ld", "val \u00fc"), ("n", "1")]
+        b = T.EnvironBuilder(method="POST", path="/p", query_string=DS.MultiDict(args), data=DS.MultiDict(form))
+        try:
+            env = b.get_environ()
+            body = env["wsgi.input"].read()
+            env["wsgi.input"] = io.BytesIO(body)
+            first = Request(dict(env))
+            want = (list(first.args.items(multi=True)), list(first.form.items(multi=True)))
+            for route in ("from_environ", "client.open(environ)"):
+                env2 = dict(env)
+                env2["wsgi.input"] = io.BytesIO(body)
+                rec.case()
+                rec.nontrivial(("second-builder", repr(args), route))
+                rec.observe("second_builders_with_query_arguments")
+                case = {"path": "second-builder", "route": route, "args": args}
+                with rec.guard(case, "C02/second-builder"):
+                    if route == "from_environ":
+                        b2 = T.EnvironBuilder.from_environ(env2)
+                        try:
+                            r2 = b2.get_request(Request)
+                            got = (list(r2.args.items(multi=True)), list(r2.form.items(multi=True)))
+                        finally:
+                            b2.close()
+                    else:
+                        seen = {}
+
+                        def app(environ, start_response):
+                            rq = Request(environ)
+                            seen["got"] = (list(rq.args.items(multi=True)), list(rq.form.items(multi=True)))
+                            start_response("200 OK", [])
+                            return [b""]
+
+                        T.Client(app).open(env2).close()
+                        got = seen.get("got")
+                    if got != want or want[0] != args:
+                        rec.violation("C02/second-builder:args-or-form-differ", f"{route}: first request args {want[0]!r} form {want[1]!r} (given {args!r}); the second request carries {got!r}", case, monitor="roundtrip")
+                        return
+        finally:
+            b.close()
+    # (b)
+    for nparts in (1, 2, 5, 30):
+        md = DS.MultiDict([(f"n{i}", f"v{i}") for i in range(nparts - 1)])
+        md.add("up", DS.FileStorage(io.BytesIO(b"data"), filename="f.bin", name="up", content_type="application/octet-stream"))
+        b2_, data = T.encode_multipart(md)
+        for limit in (nparts, nparts + 1):
+            for route in ("decoder", "parser", "request"):
+                rec.case()
+                rec.nontrivial(("exact-part-limit", nparts, limit, route))
+                rec.observe("forms_with_exactly_as_many_parts_as_allowed")
+                case = {"path": "exact-part-limit", "parts": nparts, "max_form_parts": limit, "route": route}
+                with rec.guard(case, "C02/exact-part-limit"):
+                    try:
+                        if route == "decoder":
+                            d = M.MultipartDecoder(b2_.encode(), max_parts=limit)
+                            d.receive_data(data)
+                            d.receive_data(None)
+                            n_seen = 0
+                            while True:
+                                ev = d.next_event()
+                                if isinstance(ev, (M.Field, M.File)):
+                                    n_seen += 1
+                                if isinstance(ev, (M.Epilogue, M.NeedData)):
+                                    break
+                            ok = n_seen == nparts
+                        elif route == "parser":
+                            form, files = FP.MultiPartParser(max_form_parts=limit).parse(io.BytesIO(data), b2_.encode(), len(data))
+                            ok = len(form) + len(files) == nparts
+                        else:
+                            class R(Request):
+                                max_form_parts = limit
+
+                            r = R({"REQUEST_METHOD": "POST", "wsgi.input": io.BytesIO(data), "CONTENT_LENGTH": str(len(data)), "CONTENT_TYPE": f"multipart/form-data; boundary={b2_}",
+                                   "wsgi.url_scheme": "http", "SERVER_NAME": "h", "SERVER_PORT": "80", "PATH_INFO": "/", "SCRIPT_NAME": "", "QUERY_STRING": ""})
+                            ok = len(r.form) + len(r.files) == nparts
+                        why = "parts lost"
+                    except Exception as e:  # noqa: BLE001
+                        ok, why = False, f"{type(e).__name__}"
+                    if not ok:
+                        rec.violation("C02/form-within-the-part-limit-refused", f"{route}: a form of {nparts} parts under max_form_parts={limit}: {why}", case, monitor="roundtrip")
+                        return
+
+
 def uploads_that_are_encoded_forms(W, rec, rng):
     """History of the process: an upload whose content was itself produced by the encoder a moment ago (a recorded request
     body attached to a bug report, a form forwarded inside a form), every encoding left to choose its own boundary.  The
@@ -853,6 +942,8 @@ def run(shard, rec, rng):
         delimiters_quoted_in_mid_line(W, rec, rng)
     if shard["index"] % 4 == 1:
         typed_fields_and_delimiters_at_read_boundaries(W, rec, rng)
+    if shard["index"] % 4 == 2:
+        second_builders_and_exact_part_limits(W, rec, rng)
     # ---- random part lists
     for i in range(cfg["random_lists"]):
         boundary = rand_boundary(rng)
